@@ -1,7 +1,7 @@
 (* C16/Corr.v -- executable comparison of the model with the implementation's answers, as emitted
    by harness/h16.  Each [check_*] returns the indices (and the model's answer) of the cases on
    which model and implementation disagree; the driver expects []. *)
-From C16 Require Import Casm Vm Run.
+From C16 Require Import Casm Vm Run Layout.
 
 Fixpoint list_eqb {A} (eqb : A -> A -> bool) (a b : list A) : bool :=
   match a, b with
@@ -115,7 +115,16 @@ Definition check_step (cs : list step_case) : list (Z * option (addr * Z * Z * l
    same memory on the probed window, and -- when the implementation stopped early -- reject the
    next step. ---- *)
 Definition run_case :=
-  (list cellv * (addr * Z * Z) * nat * list (addr * Z * Z) * list cellv)%type.
+  (list instr * list cellv * (addr * Z * Z) * nat * list (addr * Z * Z) * list cellv)%type.
+
+(* the program the harness loaded at (0, 0) is the bytecode [prog_words] of C16/Layout.v: the
+   implementation's encodings, concatenated, stored as field elements ([mem_has], executable) *)
+Definition prog_loaded_b (is : list instr) (m : list cellv) : bool :=
+  match prog_words is with
+  | Some ws => forallb (fun '(k, w) => opt_eqb value_eqb (lookup m (0, k)) (Some (VInt (fnorm w))))
+                       (indexed 0 ws)
+  | None => false
+  end.
 
 Definition st_eqb (x t : addr * Z * Z) : bool :=
   let '(p, a, f) := t in let '(p', a', f') := x in addr_eqb p' p && (a' =? a) && (f' =? f).
@@ -124,7 +133,7 @@ Definition window (segs len : nat) : list addr :=
   flat_map (fun sg => map (fun o => (Z.of_nat sg, Z.of_nat o)) (seq 0 len)) (seq 0 segs).
 
 Definition check_run (cs : list run_case) : list (Z * Z * option (list (addr * Z * Z))) :=
-  flat_map (fun '(k, (m, st, nmax, states, after)) =>
+  flat_map (fun '(k, (is, m, st, nmax, states, after)) =>
     let '(pc0, ap0, fp0) := st in
     let s := {| pc := pc0; ap := ap0; fp := fp0 |} in
     let n := length states in
@@ -139,6 +148,6 @@ Definition check_run (cs : list run_case) : list (Z * Z * option (list (addr * Z
     let ok2 := if (n <? nmax)%nat
                then match vm_trace finv (S n) (lookup m) s with None => true | Some _ => false end
                else true in
-    if ok1 && ok2 then []
-    else [(k, if ok1 then 1 else 0,
+    if ok1 && ok2 && prog_loaded_b is m then []
+    else [(k, if ok1 then (if ok2 then 2 else 1) else 0,
            tr_of (if ok1 then vm_trace finv (S n) (lookup m) s else r))]) (indexed 0 cs).
